@@ -17,4 +17,12 @@ rc=$?
 # Touch the real files the patch changed so that the next real build recompiles them.
 grep "^+++ b/" "$patch" | sed 's/^+++ b\///' | while read f; do [ -f "/repo/$f" ] && touch "/repo/$f"; done
 rm -rf $wt
+# the checks with a regenerated model (C07, C08, C16, C18) wrote files derived from the PATCHED sources into /verif/lean and
+# /verif/harness: regenerate them from the real /repo again (do not run such a check for real while a mutation run is going on)
+(cd /verif && python3 -c "
+from checks import c07, c08, c16, c18
+for m in (c16, c18, c08, c07):
+    try: m.regenerate()
+    except Exception as e: print('regenerate', m.__name__, e)
+")
 exit $rc
